@@ -17,7 +17,9 @@ package main
 //                          (the parameter lists `(err error)` / `(key string, err error)` are CHECKED)
 //   chord/server_rpc.go    per handler of *Server, how the error of the local node is returned
 //                          (rpc.WrapError / rpc.WrapErrorKV / raw)  ->  handlers; the key argument of every
-//                          rpc.WrapErrorKV call of a handler (all calls of one handler must agree)  ->  handlerKeys
+//                          rpc.WrapErrorKV call of a handler (all calls of one handler must agree)  ->  handlerKeys;
+//                          EVERY error return of a handler with the call its `err` came from  ->  handlerReturns
+//                          (a handler that answers with an error of its own making shows up here)
 //
 // usage: extract c14-facts <namespace> <errors.go> <rpc/error.go> <server_rpc.go>
 
@@ -269,7 +271,11 @@ func runC14Facts(args []string) {
 	}
 
 	// ---- handlers ----
-	type hd struct{ name, how, key string }
+	type hret struct{ form, recv, fn string }
+	type hd struct {
+		name, how, key string
+		rets           []hret // EVERY error return, in source order
+	}
 	var hds []hd
 	for _, d := range srv.Decls {
 		fd, ok := d.(*ast.FuncDecl)
@@ -278,7 +284,24 @@ func runC14Facts(args []string) {
 		}
 		how := "none"
 		hkey := ""
+		var rets []hret
+		errRecv, errFn := "?", "?" // the call the variable `err` was last assigned from
 		ast.Inspect(fd.Body, func(x ast.Node) bool {
+			if as, ok := x.(*ast.AssignStmt); ok {
+				for _, l := range as.Lhs {
+					if id, ok := l.(*ast.Ident); ok && id.Name == "err" {
+						errRecv, errFn = "?", c14Src(fset, as.Rhs[0])
+						if c, ok := as.Rhs[0].(*ast.CallExpr); ok && len(as.Rhs) == 1 {
+							f := c14Src(fset, c.Fun)
+							if i := strings.LastIndex(f, "."); i >= 0 {
+								errRecv, errFn = f[:i], f[i+1:]
+							} else {
+								errRecv, errFn = "", f
+							}
+						}
+					}
+				}
+			}
 			if c, ok := x.(*ast.CallExpr); ok && c14Src(fset, c.Fun) == "rpc.WrapErrorKV" {
 				if len(c.Args) != 2 || c14Src(fset, c.Args[1]) != "err" {
 					fail("c14-facts: handler %s: unexpected call %s", fd.Name.Name, c14Src(fset, c))
@@ -305,12 +328,15 @@ func runC14Facts(args []string) {
 			default:
 				fail("c14-facts: handler %s returns %s", fd.Name.Name, e)
 			}
+			if e != "nil" {
+				rets = append(rets, hret{how, errRecv, errFn})
+			}
 			return true
 		})
 		if (how == "WrapErrorKV") != (hkey != "") {
 			fail("c14-facts: handler %s: returns through %s but wraps with key %q", fd.Name.Name, how, hkey)
 		}
-		hds = append(hds, hd{fd.Name.Name, how, hkey}) // the LAST error return: the one after the local node's call
+		hds = append(hds, hd{fd.Name.Name, how, hkey, rets}) // how = the LAST error return: the one after the local node's call
 	}
 
 	var b strings.Builder
@@ -399,6 +425,18 @@ func runC14Facts(args []string) {
 			c = ""
 		}
 		fmt.Fprintf(&b, "  (%s, %s)%s\n", c14LeanStr(h.name), c14LeanStr(h.key), c)
+	}
+	fmt.Fprintf(&b, "]\n\n/-- EVERY error return of each handler, in source order: (form of the return, receiver and name of the call the\nreturned `err` was assigned from) -/\ndef handlerReturns : List (String × List (String × String × String)) := [\n")
+	for i, h := range hds {
+		c := ","
+		if i == len(hds)-1 {
+			c = ""
+		}
+		var rs []string
+		for _, r := range h.rets {
+			rs = append(rs, fmt.Sprintf("(%s, %s, %s)", c14LeanStr(r.form), c14LeanStr(r.recv), c14LeanStr(r.fn)))
+		}
+		fmt.Fprintf(&b, "  (%s, [%s])%s\n", c14LeanStr(h.name), strings.Join(rs, ", "), c)
 	}
 	fmt.Fprintf(&b, "]\n\nend %s\n", ns)
 	fmt.Print(b.String())
